@@ -8,14 +8,18 @@ from .common import run_control, generic_rules
 
 def analyse(ctx: CheckContext, p: Program):
     r = Resolver(p)
-    generic_rules(ctx, p, r, "C18")
+    ctx.guard(generic_rules, ctx, p, r, "C18")
+    ctx.guard(_specific, ctx, p, r)
+
+
+def _specific(ctx: CheckContext, p: Program, r: Resolver):
     s = p.find_class("SimpleHeatPumpCycle")
     b = p.find_class("SimpleBraytonHeatPumpCycle")
     if s is None:
         raise AnalysisError("SimpleHeatPumpCycle not found")
-    own.check_query_effects(ctx, p, r, s, "solve", "_state")
+    ctx.guard(own.check_query_effects, ctx, p, r, s, "solve", "_state")
     if b is not None and "solve" in b.methods:
-        own.check_query_effects(ctx, p, r, b, "solve", None, rule="QEFFECT")
+        ctx.guard(own.check_query_effects, ctx, p, r, b, "solve", None, rule="QEFFECT")
 
 
 def run(ctx: CheckContext):
